@@ -45,13 +45,18 @@ var (
 
 func TopoHashes() []string {
 	ps := Probes()
-	return []string{detection.GenerateTopologyHash(ps[0]), detection.GenerateTopologyHash(ps[1]), detection.GenerateTopologyHash(ps[2]), "00ff00ff00ff00ff00ff00ff00ff00ff"}
+	// the last one EXTENDS the first (hand-written databases need not use fixed-length hashes):
+	// a lookup for a hash must not sweep in entries filed under a longer hash that starts with it
+	h0 := detection.GenerateTopologyHash(ps[0])
+	return []string{h0, detection.GenerateTopologyHash(ps[1]), detection.GenerateTopologyHash(ps[2]), "00ff00ff00ff00ff00ff00ff00ff00ff", h0 + "0a"}
 }
 
 func FuzzyHashes() []string {
 	ps := Probes()
 	// ps[0] and ps[1] share a fuzzy bucket by construction (B2L1BR2P2R1); ps[2] is B0L0BR0P0R0.
-	return []string{ps[0].FuzzyHash, ps[2].FuzzyHash, "B9L9BR9P9R9", ""}
+	// ps[0].FuzzyHash+"2" is the bucket of a function with ten-odd results: it extends the
+	// first bucket's string (only the trailing component of a fuzzy hash is unterminated)
+	return []string{ps[0].FuzzyHash, ps[2].FuzzyHash, "B9L9BR9P9R9", "", ps[0].FuzzyHash + "2"}
 }
 
 func pick[T any](r *rand.Rand, xs []T) T { return xs[r.Intn(len(xs))] }
